@@ -350,8 +350,10 @@ class Ctx:
         })
         level = self.level
         if n_obl == 0 or n_dis == 0:
-            # schema wants >=1 for proof-level; fall back to generic keys honestly
-            cov["obligations"] = max(n_obl, 0)
+            # no Lean obligation was discharged in this run: do not present proof-level keys;
+            # the schema then falls back to the generic counts (evaluations / distinct_nontrivial)
+            cov["lean_obligations_attempted"] = cov.pop("obligations")
+            cov["lean_obligations_discharged"] = cov.pop("discharged")
         ev = {
             "property_id": self.prop,
             "tier": self.tier,
